@@ -7,21 +7,22 @@
 (* the HA context of the occurrence ("-" when the source has none: MQTT, webhook).           *)
 EXTENDS Naturals, Sequences, FiniteSets
 
-\* A filter is Python source evaluated on the message's OWN data only: "T" truthy, "F" falsy, "E" it raises (a name
+\* A filter is Python source evaluated on the message's OWN variables only (type header h + data d): "T" truthy, "F" falsy, "E" it raises (a name
 \* the message does not carry - NameError / KeyError -, int() of a non-number); and / or / not short-circuit as in
 \* Python, so an operand that is never reached cannot raise.  A raising filter starts no run for that message.
-RECURSIVE EvalR(_, _)
-EvalR(x, d) ==
+RECURSIVE EvalR(_, _, _)
+EvalR(x, d, h) ==
   CASE x.k = "none" -> "T"
     [] x.k = "eq"   -> IF x.f \notin DOMAIN d THEN "E" ELSE IF d[x.f] = x.c THEN "T" ELSE "F"
     [] x.k = "ne"   -> IF x.f \notin DOMAIN d THEN "E" ELSE IF d[x.f] # x.c THEN "T" ELSE "F"
     [] x.k = "nz"   -> IF x.f \notin DOMAIN d THEN "E"                  \* int(field): truthy but not a bool
                        ELSE IF d[x.f] \in {"1", "2"} THEN "T" ELSE IF d[x.f] = "0" THEN "F" ELSE "E"
-    [] x.k = "and"  -> LET l == EvalR(x.l, d) IN IF l # "T" THEN l ELSE EvalR(x.r, d)
-    [] x.k = "or"   -> LET l == EvalR(x.l, d) IN IF l # "F" THEN l ELSE EvalR(x.r, d)
-    [] x.k = "not"  -> LET a == EvalR(x.a, d) IN IF a = "E" THEN "E" ELSE IF a = "T" THEN "F" ELSE "T"
+    [] x.k = "heq"  -> IF x.f \notin DOMAIN h THEN "E" ELSE IF h[x.f] = x.c THEN "T" ELSE "F"   \* a variable of the type header
+    [] x.k = "and"  -> LET l == EvalR(x.l, d, h) IN IF l # "T" THEN l ELSE EvalR(x.r, d, h)
+    [] x.k = "or"   -> LET l == EvalR(x.l, d, h) IN IF l # "F" THEN l ELSE EvalR(x.r, d, h)
+    [] x.k = "not"  -> LET a == EvalR(x.a, d, h) IN IF a = "E" THEN "E" ELSE IF a = "T" THEN "F" ELSE "T"
     [] OTHER        -> "E"
-EvalF(x, d) == EvalR(x, d) = "T"
+EvalF(x, d, h) == EvalR(x, d, h) = "T"
 
 \* MQTT: the trigger's key is a topic FILTER (levels T.lv, "+" = exactly one level, "#" = the rest), the message
 \* carries a concrete topic (levels M.lv); every matching subscription is served, and served once
@@ -30,12 +31,14 @@ TopicMatch(f, t) == IF f = <<>> THEN t = <<>>
                     ELSE IF Head(f) = "#" THEN TRUE
                     ELSE t # <<>> /\ (Head(f) = "+" \/ Head(f) = Head(t)) /\ TopicMatch(Tail(f), Tail(t))
 Matches(T, M)  == T.kind = M.kind /\ IF T.kind = "mqtt" THEN TopicMatch(T.lv, M.lv) ELSE T.key = M.key
-Accepts(T, M)  == Matches(T, M) /\ EvalF(T.flt, M.d)
-
-Merged(args, kw) == [k \in DOMAIN args \cup DOMAIN kw |-> IF k \in DOMAIN kw THEN kw[k] ELSE args[k]]
-\* the keyword arguments of the run: type-specific header + the message's data + decorator kwargs
 Header(M) == CASE M.kind = "event"   -> [trigger_type |-> "event", event_type |-> M.key]
                [] M.kind = "mqtt"    -> [trigger_type |-> "mqtt", topic |-> M.key]
                [] M.kind = "webhook" -> [trigger_type |-> "webhook", webhook_id |-> M.key]
+\* the filter sees the variables the function would get: the type header (trigger_type, event_type / topic /
+\* webhook_id) besides the message's own data
+Accepts(T, M)  == Matches(T, M) /\ EvalF(T.flt, M.d, Header(M))
+
+Merged(args, kw) == [k \in DOMAIN args \cup DOMAIN kw |-> IF k \in DOMAIN kw THEN kw[k] ELSE args[k]]
+\* the keyword arguments of the run: type-specific header + the message's data + decorator kwargs
 RunKw(T, M) == Merged(Merged(Header(M), M.d), T.kw)
 =============================================================================
